@@ -269,6 +269,12 @@ def applyMut (es : List E) (m : Mut) : Except String (List E) :=
   | "e.ptick" => at_ (fun e => { e with parents := e.parents.map (fun p => { p with tick := m.a }) })
   | "e.pwl" => at_ (fun e => { e with parents := e.parents.map (fun p => { p with wl := otherId }) })
   | "e.pdrop" => at_ (fun e => { e with parents := [] })
+  | "e.p2.desc" => at_ (fun e => { e with parents :=
+      [{ wl := e.wl, tick := 0, commit := garbage (m.a % 200 + 1) }, { wl := e.wl, tick := 0, commit := garbage (m.a % 200) }] })
+  | "e.p2.asc" => at_ (fun e => { e with parents :=
+      [{ wl := e.wl, tick := 0, commit := garbage (m.a % 200) }, { wl := e.wl, tick := 0, commit := garbage (m.a % 200 + 1) }] })
+  | "e.p2.dup" => at_ (fun e => { e with parents :=
+      [{ wl := e.wl, tick := 0, commit := garbage (m.a % 200) }, { wl := e.wl, tick := 0, commit := garbage (m.a % 200) }] })
   | "e.tick" => at_ (fun e => { e with tick := m.a })
   | "e.wl" => at_ (fun e => { e with wl := otherId })
   | "e.gtick" => at_ (fun e => { e with gtick := m.a })
@@ -320,6 +326,114 @@ def applyMut (es : List E) (m : Mut) : Except String (List E) :=
   | "trunc" => .ok (es.take m.i)
   | "none" => .ok es
   | k => .error s!"bad mut {k}"
+
+/-! ### checkpoint tampering (`cpt`): ONE retained field of a `ReplayCheckpoint` altered -/
+
+abbrev A := Art String PMeta
+
+/-- alteration of one `Snapshot` field (of a `tick_history` element or of `last_snapshot`). -/
+def snapMut (f : String) (a : Nat) (x : A) : Except String A :=
+  let g := garbage a
+  match f with
+  | "hash" => .ok { x with hash := g }
+  | "sroot" => .ok { x with root := g }
+  | "parents" => .ok { x with parents := if x.parents.isEmpty then [g] else [] }
+  | "plan" => .ok { x with pm := (otherId + a, x.pm.2) }
+  | "decision" => .ok { x with pm := (x.pm.1, g, x.pm.2.2) }
+  | "rewrites" => .ok { x with pm := (x.pm.1, x.pm.2.1, otherId + a, x.pm.2.2.2) }
+  | "pdig" => .ok { x with pdigest := g }
+  | "policy" => .ok { x with policy := 7 + a }
+  | "tx" => .ok { x with tx := a }
+  | "key" => .ok { x with pm := (x.pm.1, x.pm.2.1, x.pm.2.2.1, x.pm.2.2.2.1, 1) }
+  | o => .error s!"bad snapshot field {o}"
+
+def rcptMut (f : String) (a : Nat) (x : A) : Except String A :=
+  match f with
+  | "tx" => .ok { x with rcpt := (a, x.rcpt.2) }
+  | "entry" => .ok { x with rcpt := (x.rcpt.1, receiptD 0 [(otherId, otherId, otherId, 1 + 2 * (a % 2))]) }
+  | "empty" => .ok { x with rcpt := (x.rcpt.1, receiptD 0 []) }
+  | o => .error s!"bad receipt field {o}"
+
+/-- alteration inside the replay patch `WarpTickPatchV1::new(..)` of tick `j` (rebuilt canonically,
+    so its digest is consistent) or of its stored digest alone. `p` = the stored patch of entry j. -/
+def rpatchMut (f : String) (a : Nat) (warp : Nat) (p : Patch) (x : A) : Except String A :=
+  let cp : Patch := { p with ops := canonOps p.ops, inSlots := canonSlots p.inSlots, outSlots := canonSlots p.outSlots }
+  let set (d : String) : Except String A := .ok { x with pm := (x.pm.1, x.pm.2.1, x.pm.2.2.1, d, x.pm.2.2.2.2) }
+  match f with
+  | "policy" => set (patchD { cp with policy := 7 + a })
+  | "rulepack" => set (patchD { cp with rulePack := otherId + a })
+  | "status" => set (patchDSt 2 cp)
+  | "op.add" => set (patchD { cp with ops := cp.ops ++ [.upsertNode warp (otherId + a) otherId] })
+  | "op.drop" => set (patchD { cp with ops := cp.ops.eraseIdx a })
+  | "in.add" => set (patchD { cp with inSlots := cp.inSlots ++ [(1, warp, otherId + a)] })
+  | "out.add" => set (patchD { cp with outSlots := cp.outSlots ++ [(1, warp, otherId + a)] })
+  | "in.drop" => set (patchD { cp with inSlots := cp.inSlots.eraseIdx a })
+  | "out.drop" => set (patchD { cp with outSlots := cp.outSlots.eraseIdx a })
+  | "digest" => set (garbage a)
+  | o => .error s!"bad replay-patch field {o}"
+
+def modifyAtE {α : Type} (xs : List α) (i : Nat) (f : α → Except String α) : Except String (List α) :=
+  match xs[i]? with
+  | none => .ok xs
+  | some x => (f x).map (fun y => xs.set i y)
+
+def rootAtt (g : Graph) (a : Nat) : Graph :=
+  { g with natt := SMap.insert g.root { ty := otherId, bytes := [UInt8.ofNat a] } g.natt }
+
+/-- One alteration of a retained field of a checkpoint (mirrors `tamper_cp` in harness/src/c07.rs).
+    `src` = entries of the history the checkpoint state was replayed from. -/
+def tamperCp (src : List E) (c : C) (kind : String) (j a : Nat) : Except String C :=
+  let g := garbage a
+  let w := c.w
+  let setHist (h : List A) : C := { c with w := { w with core := { w.core with hist := h } } }
+  let dropPrefix (pre : String) : Option String :=
+    if kind.startsWith pre then some ((kind.drop pre.length).toString) else none
+  match kind with
+  | "none" => .ok c
+  | "hash" => .ok { c with hash := g }
+  | "g" => .ok { c with w := { w with core := { w.core with g := rootAtt w.core.g a } } }
+  | "g.unreach" => .ok { c with w := { w with core := { w.core with
+      g := { w.core.g with nodes := SMap.insert (otherId + a) otherId w.core.g.nodes } } } }
+  | "s0" => .ok { c with s0 := rootAtt c.s0 a }
+  | "warp" => .ok { c with warp := otherId }
+  | "rootid" => .ok { c with s0 := { c.s0 with root := otherId }
+                             w := { w with core := { w.core with g := { w.core.g with root := otherId } } } }
+  | "txc" => .ok { c with w := { w with txc := a } }
+  | "lm.add" => .ok { c with w := { w with lastMat := w.lastMat ++ [(otherId, [UInt8.ofNat a])] } }
+  | "lm.drop" => .ok { c with w := { w with lastMat := w.lastMat.dropLast } }
+  | "lm.data" => .ok { c with w := { w with lastMat := match w.lastMat with
+      | [] => []
+      | (ch, d) :: rest => (ch, d ++ [UInt8.ofNat a]) :: rest } }
+  | "ls.none" => .ok { c with ls := none }
+  | "ls.some" => .ok { c with ls := match c.ls with
+      | some x => some x
+      | none => some { hash := g, root := g, parents := [], pdigest := g, policy := 0, tx := 1,
+                       rcpt := (1, receiptD 0 []), pm := (0, g, 0, g, 0) } }
+  | "ci" => .ok { c with nIngress := c.nIngress + 1 }
+  | "lme" => .ok { c with nErrs := c.nErrs + 1 }
+  | "th.drop" => .ok (setHist w.core.hist.dropLast)
+  | "th.dup" => .ok (setHist (w.core.hist ++ (match w.core.hist.getLast? with | some x => [x] | none => [])))
+  | "th.swap" => match w.core.hist[j]?, w.core.hist[j + 1]? with
+    | some x, some y => .ok (setHist ((w.core.hist.set j y).set (j + 1) x))
+    | _, _ => .ok c
+  | _ =>
+    match dropPrefix "ls." with
+    | some f => match c.ls with
+      | none => .ok c
+      | some x => (snapMut f a x).map (fun y => { c with ls := some y })
+    | none =>
+    match dropPrefix "th.s." with
+    | some f => (modifyAtE w.core.hist j (snapMut f a)).map setHist
+    | none =>
+    match dropPrefix "th.r." with
+    | some f => (modifyAtE w.core.hist j (rcptMut f a)).map setHist
+    | none =>
+    match dropPrefix "th.p." with
+    | some f =>
+      match (src[j]?).bind (·.patch) with
+      | none => .ok c
+      | some p => (modifyAtE w.core.hist j (rpatchMut f a c.s0.warp p)).map setHist
+    | none => .error s!"bad checkpoint tamper {kind}"
 
 def applyMuts (es : List E) (ms : List Mut) : Except String (List E) :=
   ms.foldl (fun acc m => acc.bind (fun es => applyMut es m)) (.ok es)
